@@ -69,6 +69,53 @@ MsfOk(lay, names, rows, biotype, BW) ==
     /\ lay.has_sep = 1
     /\ BlocksOk(lay.blocks, names, rows, BW)
 
+-----------------------------------------------------------------------------
+(***************************************************************************)
+(* The writers themselves, constructively: the exact lines kalign prints    *)
+(* (msa_io.c).  Used for the design-level round trip (MC_RoundTrip: what    *)
+(* Reader reads back from these lines is the alignment) and to compare      *)
+(* written files line by line (WriterTrace).  The third line of an MSF      *)
+(* file carries the file name and the date and is not modelled.             *)
+(***************************************************************************)
+Spaces(n) == [i \in 1..n |-> 32]
+RECURSIVE DigitsOf(_)
+DigitsOf(n) == IF n < 10 THEN <<48 + n>> ELSE DigitsOf(n \div 10) \o <<48 + (n % 10)>>
+PadLeft(s, w) == IF Len(s) >= w THEN s ELSE Spaces(w - Len(s)) \o s
+PadRight(s, w) == IF Len(s) >= w THEN s ELSE s \o Spaces(w - Len(s))
+MaxNameLen(names) == FoldLeft(LAMBDA acc, nm : IF Len(nm) > acc THEN Len(nm) ELSE acc, 0, names)
+
+FastaLines(names, rows, BW) ==
+    FoldLeft(LAMBDA acc, i : acc \o <<(<<62>> \o names[i])>> \o [k \in 1..CeilDiv(Len(rows[i]), BW) |-> Segment(rows[i], k, BW)],
+             <<>>, [i \in 1..Len(rows) |-> i])
+
+BlockLines(names, rows, BW) ==
+    LET W == Width(rows)
+        col == MaxNameLen(names) + 5
+        block(k) == [i \in 1..Len(rows) |-> PadRight(names[i], col) \o Segment(rows[i], k, BW)] \o << <<>>, <<>> >>
+    IN FoldLeft(LAMBDA acc, k : acc \o block(k), <<>>, [k \in 1..CeilDiv(W, BW) |-> k])
+
+\* "Kalign (3.4.1) multiple sequence alignment"
+CluHeader == <<75, 97, 108, 105, 103, 110, 32, 40, 51, 46, 52, 46, 49, 41, 32, 109, 117, 108, 116, 105, 112, 108, 101, 32, 115, 101, 113, 117, 101, 110, 99, 101, 32, 97, 108, 105, 103, 110, 109, 101, 110, 116>>
+CluLines(names, rows, BW) == <<CluHeader, <<>>>> \o BlockLines(names, rows, BW)
+
+BangAA == <<33, 33, 65, 65, 95, 77, 85, 76, 84, 73, 80, 76, 69, 95, 65, 76, 73, 71, 78, 77, 69, 78, 84, 32, 49, 46, 48>>
+BangNA == <<33, 33, 78, 65, 95, 77, 85, 76, 84, 73, 80, 76, 69, 95, 65, 76, 73, 71, 78, 77, 69, 78, 84, 32, 49, 46, 48>>
+\* " x  MSF: <W>  Type: <P|N>  <date>  Check: <sum>  .." with a fixed file name and date
+MsfLine(W, biotype, chk) ==
+    <<32, 120, 32, 32, 77, 83, 70, 58, 32>> \o DigitsOf(W) \o <<32, 32, 84, 121, 112, 101, 58, 32, (IF biotype = 0 THEN 80 ELSE 78), 32, 32, 100, 32, 32, 67, 104, 101, 99, 107, 58, 32>>
+    \o DigitsOf(chk) \o <<32, 32, 46, 46>>
+\* " Name: <name padded>  Len:  <%5d>  Check: <%4d>  Weight: 1.00"
+MsfNameLine(name, w, W, chk) ==
+    <<32, 78, 97, 109, 101, 58, 32>> \o PadRight(name, w) \o <<32, 32, 76, 101, 110, 58, 32, 32>> \o PadLeft(DigitsOf(W), 5)
+    \o <<32, 32, 67, 104, 101, 99, 107, 58, 32>> \o PadLeft(DigitsOf(chk), 4) \o <<32, 32, 87, 101, 105, 103, 104, 116, 58, 32, 49, 46, 48, 48>>
+MsfLines(names, rows, biotype, BW) ==
+    LET W == Width(rows)
+        w == MaxNameLen(names)
+    IN <<(IF biotype = 0 THEN BangAA ELSE BangNA), <<>>, MsfLine(W, biotype, GCGMult(rows)), <<>>>>
+       \o [i \in 1..Len(rows) |-> MsfNameLine(names[i], w, W, GCG(rows[i]))]
+       \o << <<>>, <<47, 47>>, <<>> >>
+       \o BlockLines(names, rows, BW)
+
 (* which requirement of a format fails (for the verdict message) *)
 MsfFailures(lay, names, rows, biotype, BW) ==
     (IF lay.bang # (IF biotype = 0 THEN "AA" ELSE "NA") \/ lay.msf_type # (IF biotype = 0 THEN "P" ELSE "N") THEN {"C15:msf-molecule-type"} ELSE {})
